@@ -219,7 +219,10 @@ func runPSExec(execID int, sci any, e *Env) []rec.Ev {
 	x.ctxs = make([]context.Context, sc.NCtx+1)
 	x.cancels = make([]context.CancelFunc, sc.NCtx+1)
 	for i := 1; i <= sc.NCtx; i++ {
-		x.ctxs[i], x.cancels[i] = context.WithCancel(context.Background())
+		var inner context.Context
+		inner, x.cancels[i] = context.WithCancel(context.Background())
+		// the contexts handed to SubscribeContext are scheduling points of the environment (see countingCtx)
+		x.ctxs[i] = &countingCtx{inner: inner}
 	}
 	e.R.Add(rec.Ev{"ev": "reset", "exec": execID, "mode": e.Mode})
 	for i, ops := range sc.Drivers {
